@@ -630,4 +630,145 @@ class C28(HistoryProfile):
     return rows, ret, len(adds)
 
 
-PROFILES = [C13(), C14(), C39(), C28()]
+# -- C23 ------------------------------------------------------------------------------------------
+
+ALL_TYPES = ["Int", "Numeric", "Text", "Bool", "Choice", "ChoiceList", "Date", "DateTime:UTC",
+             "DateTime:America/New_York", "Any"]
+UNION_POOL = [0, 1, -1, 2.5, 1e10, "", "a", "abc", "1", "2.5", "true", "2020-01-02", None, True, False,
+              ["L", "a", "b"], ["L"], ["L", 1, 2], 1577923200, 86400.5, "1e3", " 7 ", "é", "[1, 2]",
+              '["a"]', "0", "no", 10 ** 12]
+
+
+def op_modify_type_any(g, dv, protected):
+  rng = g.rng
+  cands = [(t, c) for t in gen.data_tables(dv) for c in t.user_cols()
+           if not c.isFormula and not c.formula and (t.tableId, c.colId) not in protected
+           and not c.reverseCol and not c.summarySourceCol and c.pure not in ("ManualSortPos",)]
+  if not cands:
+    return None
+  t, c = rng.choice(cands)
+  types = list(ALL_TYPES)
+  for o in gen.data_tables(dv):
+    types += ["Ref:" + o.tableId, "RefList:" + o.tableId]
+  new = rng.choice([x for x in types if x != c.type])
+  info = {"type": new}
+  if new in ("Choice", "ChoiceList"):
+    info["widgetOptions"] = json.dumps({"choices": gen.CHOICES})
+  return [["ModifyColumn", t.tableId, c.colId, info]]
+
+
+def op_union_values(g, dv, protected):
+  """Write values from the union pool (any type into any data column)."""
+  rng = g.rng
+  ts = [t for t in gen.data_tables(dv) if t.row_ids]
+  if not ts:
+    return None
+  t = rng.choice(ts)
+  cols = [c for c in gen.writable_cols(dv, t) if (t.tableId, c.colId) not in protected and not c.reverseCol]
+  if not cols:
+    return None
+  c = rng.choice(cols)
+  rows = rng.sample(t.row_ids, min(len(t.row_ids), rng.randint(1, 4)))
+  return [["BulkUpdateRecord", t.tableId, rows, {c.colId: [rng.choice(UNION_POOL) for _ in rows]}]]
+
+
+gen.OPS["modify_type_any"] = op_modify_type_any
+gen.OPS["union_values"] = op_union_values
+
+
+class C23(HistoryProfile):
+  prop = "C23"
+  name = "c23"
+  technique = ("deterministic simulation: ModifyColumn{type} over all type pairs (incl. Ref/RefList "
+               "targets) on columns whose contents come from a cross-type pool and a history of edits; "
+               "per-cell conversion step relation plus frame condition on every other data cell")
+  max_events = 30
+  p_undo = 0.05
+  p_redo_after_undo = 0.5
+
+  def base_weights(self):
+    w = dict(gen.DEFAULT_WEIGHTS)
+    w.update({"modify_type_any": 30, "union_values": 20, "modify_type": 0, "add_data_column": 8,
+              "add_formula_column": 4, "add_summary": 2, "add_reverse": 1})
+    return w
+
+  def config(self, rng, tier):
+    cfg = super(C23, self).config(rng, tier)
+    cfg["weights"] = gen.swarm_weights(rng, self.base_weights(),
+                                       keep=("add_records", "update_records", "add_table",
+                                             "modify_type_any", "union_values"))
+    return cfg
+
+  def check(self, sim, out, st):
+    ev = out.ev
+    if ev["k"] != "bundle" or not out.ok or out.pre is None:
+      return
+    acts = ev.get("a", [])
+    if len(acts) != 1 or acts[0][0] != "ModifyColumn" or set(acts[0][3]) - {"type", "widgetOptions"} \
+        or "type" not in acts[0][3]:
+      return
+    import objtypes
+    import usertypes
+    _n, tid, cid, info = acts[0]
+    pre, post = out.pre, sim.sigma
+    dvp = DocView(pre)
+    t = dvp.tables.get(tid)
+    if t is None or cid not in t.cols or tid not in post:
+      return
+    col = t.cols[cid]
+    if col.isFormula or col.formula:
+      return
+    new_type = info["type"]
+    # the new type's own conversion function (its totality/idempotence is C22's subject), read
+    # from the column object the engine now has
+    try:
+      col_obj = sim.primary.engine.tables[tid].get_column(cid)
+    except KeyError:
+      return
+    pre_cells = dict(zip(pre[tid][2], pre[tid][3][cid]))
+    post_cells = dict(zip(post[tid][2], post[tid][3].get(cid, [])))
+    for r, v in pre_cells.items():
+      dec = objtypes.decode_object(v)
+      try:
+        if "'U'" in repr(v) or eq.norm(objtypes.encode_object(dec)) != eq.norm(v):
+          sim.count("probe.cell_not_reconstructible")
+          continue        # e.g. ['U', ...]: what travelled is not the stored Python value
+      except Exception:   # pylint: disable=broad-except
+        continue
+      # A list may be stored as a list or as a tuple depending on the column kind it lived in;
+      # the conversion of either stored form is accepted.
+      forms = [dec]
+      if isinstance(dec, list):
+        forms.append(tuple(dec))
+      exps = [objtypes.encode_object(col_obj.convert(f)) for f in forms]
+      got = post_cells.get(r)
+      if not any(eq.norm(got) == eq.norm(e) for e in exps):
+        raise vio(sim, "converted-cell", "%s[%s].%s: %r (%s) -> %s gives %r, conversion of the stored "
+                  "value gives %r" % (tid, r, cid, v, col.type, new_type, got, exps[0]))
+    # frame: no other data cell of an ordinary table changes
+    dvq = DocView(post)
+    ign = {}
+    for t2 in dvq.tables.values():
+      cols = [c.colId for c in t2.cols.values() if c.isFormula]
+      if t2.is_summary:
+        ign[t2.tableId] = list(t2.cols.keys()) + ["manualSort"]
+        continue
+      if t2.tableId == tid:
+        cols.append(cid)
+      # display/rule helper columns come and go with the column's type (formula helpers)
+      pre_t = dvp.tables.get(t2.tableId)
+      cols += [c.colId for c in (list(pre_t.cols.values()) if pre_t else [])
+               if c.colId.startswith("gristHelper_") or c.isFormula]
+      ign[t2.tableId] = cols
+    d = eq.diff(pre, post, ignore_cols=ign,
+                tables=[x.tableId for x in dvq.tables.values() if x.tableId in pre])
+    d = [x for x in d if "summary" not in x]
+    if d:
+      raise vio(sim, "frame", "ModifyColumn(%s.%s -> %s) also changed: %s" % (tid, cid, new_type, "; ".join(d[:3])))
+    sim.count("oracle.type_change")
+    sim.count("oracle.nontrivial")
+    sim.shapes.add("%s->%s/%s" % (col.type.split(":")[0], new_type.split(":")[0],
+                                  sorted(set(type(x).__name__ for x in pre_cells.values()))))
+
+
+PROFILES = [C13(), C14(), C39(), C28(), C23()]
